@@ -84,11 +84,13 @@ func (f *fAdapterTransport) Open() error {
 }
 
 func (f *fAdapterTransport) readLoop() {
+	defer verifC15Yield("exit", nil)
 	framedTransport := NewTFramedTransport(f.transport)
 	for {
 		frame, err := f.readFrame(framedTransport)
 		if err != nil {
 			// First check if the transport was closed.
+			verifC15Yield("err", err)
 			select {
 			case <-f.closeSignal:
 				// Transport was closed.
@@ -98,11 +100,13 @@ func (f *fAdapterTransport) readLoop() {
 
 			if err, ok := err.(thrift.TTransportException); ok && err.TypeId() == TRANSPORT_EXCEPTION_END_OF_FILE {
 				// EOF indicates remote peer disconnected.
+				verifC15Yield("close-eof", err)
 				f.Close()
 				return
 			}
 
 			logger().Error("frugal: error reading protocol frame, closing transport: ", err)
+			verifC15Yield("close-err", err)
 			f.close(err)
 			return
 		}
@@ -110,6 +114,7 @@ func (f *fAdapterTransport) readLoop() {
 		if err := f.registry.Execute(frame); err != nil {
 			// An error here indicates an unrecoverable error, teardown transport.
 			logger().Error("frugal: closing transport due to unrecoverable error processing frame: ", err)
+			verifC15Yield("close-exec", err)
 			f.close(err)
 			return
 		}
